@@ -16,7 +16,7 @@ from wire import quicref as Q
 
 BASE = dict(SuiteSet='{"1301","1302","1303","1304"}', OfferFirst='{"same","other","grease"}',
             Splits='{<<1>>,<<1,2>>,<<2,1>>,<<3,1,2>>,<<2,3,1>>,<<3,2,1>>}', MaxApp="2", MaxGen="3", AllowEarlyGuess="FALSE",
-            Retries="BOOLEAN", ZeroRtts="BOOLEAN", EmitOn="FALSE", AllowLate="FALSE", AllowLateAcrossKu="FALSE", NoisePhases="{}")
+            Retries="BOOLEAN", ZeroRtts="BOOLEAN", EmitOn="FALSE", AllowLate="FALSE", AllowLateAcrossKu="FALSE", NoisePhases="{}", AllowRetx="FALSE")
 INV = ["OutputIsPrefix", "CryptoOk", "EpochOk", "KeysOk", "DoneExact"]
 DEFS = "DoneExact == Done => DgramsEqualStreamData"
 CIDLENS = [0, 1, 4, 8, 16, 20]
@@ -27,10 +27,10 @@ def params_for(rng, quick):
                 pnlen={"c": rng.choice([1, 2, 3, 4]), "s": rng.choice([1, 2, 3, 4])}, pn_gaps=rng.choice([None, "small", "big"]),
                 varint_w=rng.choice([None, None, 2, 4, 8]), cid_switch=rng.random() < 0.4, ipv=rng.choice([4, 6]),
                 ch_pad=rng.choice([0, 60, 300]), tp_grease=rng.random() < 0.2,
-                l2=rng.choice([{}, {}, {}, {"ip6_ext": 1}, {"ip4_opts": 1}, {"eth_pad": 1}, {"eth_fcs": 1}]),
+                l2=rng.choice([{}, {}, {}, {"ip6_ext": 1}, {"ip4_opts": 1}, {"eth_pad": 1}, {"eth_fcs": 1}, {"vlan": 1}, {"qinq": 1}]),
                 init_token=rng.choice([0, 0, 5, 37]), len_width=rng.choice([None, 2, 4, 8]),
                 migrate_at=rng.choice([None, None, None, 5, 7]), ts_equal=rng.random() < 0.25, own_noise=rng.random() < 0.25,
-                ts_step=rng.choice([None, None, 1, 2]), same_ports=rng.random() < 0.15, sport=rng.choice([443, 443, 443, 4433, 50000]))        # capture times 1 or 2 microseconds apart (a burst) are still distinct times
+                ts_step=rng.choice([None, None, 1, 2]), ts_sub=rng.choice([None, None, None, None, 500, 700]), retire_prior=rng.random() < 0.35, same_ports=rng.random() < 0.15, sport=rng.choice([443, 443, 443, 4433, 50000]))        # capture times 1 or 2 microseconds apart (a burst) are still distinct times
 
 
 def _sublist(a, b):
@@ -86,9 +86,10 @@ def _one(job):
                            f"datagram {i}: got {(g2[i][0], len(g2[i][1])) if i < len(g2) else None}, expected {(pred[i][0], len(pred[i][1])) if i < len(pred) else None}")
             else:
                 # C07 for QUIC: each output datagram carries the capture time of its input datagram
-                ts_in = [cap.pkts[e["dg"] - 1][0] for e in b["out"]]
+                ts_in = [cap.pkts[i][0] for i, g in enumerate(c.dgrams) if g.stream]      # (from the ground truth, not from the model's prediction: in a
+                # known-finding world a repaired tree exports MORE than the model predicts, and must not be blamed for it)
                 ts_out = [int(ts * 10 ** 6) for d, ts, pl in got]
-                if ts_in != ts_out and "-a" not in opts:
+                if ts_in != ts_out and "-a" not in opts and not params.get("ts_sub"):
                     ok, why = False, "exported datagrams do not carry the capture times of their input datagrams"
     ev = [e for e in res.events if e["ev"] in ("qpn", "qepoch", "qcrypto", "qdec")]
     return dict(ok=ok, why=why, b=b, seed=seed, params=params, opts=opts, events=ev, pred_is_truth=(pred == truth), deviation=deviation, as_predicted=as_predicted,
@@ -120,6 +121,8 @@ def run(chk):
     chk.tlc("datagram delayed across a key update (not claimed by the property; documented deviation, expected counterexample)", r3, expect_ok=False)
     chk.extra["documented_deviation_late_across_key_update"] = r3.violated
     chk.extra["kf_model"] = dict(KF_EarlySuiteGuess=dict(violates=r.violated, expected="DoneExact"))
+    from checks import dissect
+    dissect.run(chk)                   # datagram layouts (spec/Dissect.tla) against the real dissector, field by field
     behs = gen(chk, dict(MaxApp="3"), 40 if quick else 600, chk.seed)
     behs += gen(chk, dict(ku, MaxApp="5"), 15 if quick else 300, chk.seed + 1)
     behs += gen(chk, dict(ku, MaxApp="5", SuiteSet='{"1302","1304"}'), 10 if quick else 200, chk.seed + 6)     # key updates under SHA-384 / CCM_8 suites
@@ -136,6 +139,14 @@ def run(chk):
     chk.extra["documented_deviation_noise_other_phase"] = r6.violated
     nb = gen(chk, dict(ku, MaxApp="5", NoisePhases='{"same","flip"}'), 15 if quick else 300, chk.seed + 4)
     behs += [b for b in nb if any(p["t"] == "N" for dg in b["hist"] for p in dg["pkts"])][: 150 if quick else 3000]
+    # a retransmitted Initial packet of the ClientHello flight (the same CRYPTO frames again, between the pieces or behind them)
+    r7 = tlc.run("Quic", dict(BASE, AllowRetx="TRUE", MaxApp="1", SuiteSet='{"1301","1303"}'), invariants=INV, view="View", timeout=900, extra_defs=DEFS)
+    chk.tlc("Quic exhaustive with a retransmitted ClientHello packet", r7)
+    rb = gen(chk, dict(AllowRetx="TRUE", MaxApp="2"), 30 if quick else 400, chk.seed + 8)
+    rb = [b for b in rb if sum(1 for dg in b["hist"] if dg["d"] == "c" and any(f["ft"] == "crypto" and f["a"] == "CH" for pk in dg["pkts"] for f in pk["frames"]))
+          > (2 if b["twoPkts"] else 1) * (2 if b["retry"] else 1)]
+    rng.shuffle(rb)
+    behs += rb[: 150 if quick else 2500]
     kfb = [b for b in gen(chk, dict(AllowEarlyGuess="TRUE", ZeroRtts="{TRUE}", OfferFirst='{"other","grease"}', MaxApp="1"), 5 if quick else 40, chk.seed + 2)
            if b["kf"]]
     rng.shuffle(behs)
@@ -206,6 +217,11 @@ def run(chk):
 
 def replay(chk, path):
     obj = json.load(open(path))
+    if obj.get("kind") == "dissect":
+        from checks import dissect
+        from types import SimpleNamespace
+        print(obj["why"])
+        return 1
     r = _one((obj["behaviour"], obj["seed"], obj["params"], obj.get("opts", [])))
     print(json.dumps(dict(ok=r.get("ok"), why=r.get("why")), indent=1))
     return 0 if r.get("ok") else 1
